@@ -67,7 +67,10 @@ def build(case):
     else:
         xs = sorted(rng.sample([0.5, 1.0, 1.5, 2.0, 3.0, 4.5, 6.0, 10.0],
                                nx))
-    if case["ztype"] == "str":
+    if case["ztype"] == "bool":
+        # a flag that was swept (on first, then off)
+        zs = [True, False][:nz]
+    elif case["ztype"] == "str":
         zs = ["k%02d" % i for i in range(nz)]
     elif case["ztype"] == "float":
         zs = [0.25 + 1.5 * i for i in range(nz)]
@@ -346,8 +349,12 @@ def expected_norm(case, values):
     import matplotlib.colors as mcolors
     v = np.asarray(values, dtype=float)
     cls = mcolors.LogNorm if case.get("colormap_log") else mcolors.Normalize
-    return cls(vmin=_LIMITS.get("vmin", float(np.nanmin(v))),
-               vmax=_LIMITS.get("vmax", float(np.nanmax(v))))
+    lo, hi = float(np.nanmin(v)), float(np.nanmax(v))
+    if all(isinstance(b, (bool, np.bool_)) for b in values):
+        # a flag has the fixed range off..on (that is also what the colour
+        # bar shows), whichever of its two values occur
+        lo, hi = 0.0, 1.0
+    return cls(vmin=_LIMITS.get("vmin", lo), vmax=_LIMITS.get("vmax", hi))
 
 
 def check_xy(case, ds, fig, kind, xname, multi, extra, opts):
@@ -620,7 +627,11 @@ def strategy(draw):
         case["colormap"] = draw(st.sampled_from(
             [None, "viridis", "plasma", "coolwarm", "tab10", "Set1"]))
         case["colormap_reverse"] = draw(st.sampled_from([None, True]))
-        if case["ztype"] != "str":
+        if not case.get("multi_y") and not case.get("no_z") and \
+                draw(st.sampled_from([False, False, False, True])):
+            case["ztype"] = "bool"
+            case["nz"] = min(case["nz"], 2)
+        if case["ztype"] not in ("str", "bool"):
             case["colormap_log"] = draw(st.sampled_from([None, None, True]))
         case["markers"] = draw(st.sampled_from([None, True, False]))
         case["legend"] = draw(st.sampled_from([None, None, True, False]))
